@@ -143,7 +143,7 @@ def f_ctor(case):
     C.same_state_denotation(S, rho, r, '%s_state(%d)' % (name, N), be=be)
     # to_qutip export
     q = S.to_qutip()
-    check(np.allclose(np.asarray(q.full()), rho, atol=1e-9), '%s_state(%d).to_qutip() differs from the named state' % (name, N), 'to_qutip')
+    check(np.allclose(np.asarray(q.full()), rho, atol=1e-9 if be == 'np' else 1e-6), '%s_state(%d).to_qutip() differs from the named state' % (name, N), 'to_qutip')
     return {'nt': name in ('one', 'ghz') and N >= 2, 'labels': [name, 'N=%d' % N]}
 
 
@@ -242,8 +242,8 @@ FACETS = [
           examples={'quick': 1500, 'thorough': 60000}, shards={'quick': 2, 'thorough': 8}),
     Facet('torch/duality-N<=2', f_duality_enum, kind='enum', cases=enum_duality('torch', 127), exhaustive=lambda t: t == 'thorough',
           shards={'quick': 2, 'thorough': 16}, budget={'quick': 120, 'thorough': 3000}, backend='torch'),
-    Facet('torch/constructors', f_ctor, strategy=lambda t: st_ctor('torch', 4, ['zero', 'ghz', 'mixed', 'random_pauli']),
+    Facet('torch/constructors', f_ctor, strategy=lambda t: st_ctor('torch', 4, ['zero', 'one', 'ghz', 'mixed', 'random_pauli']),
           examples={'quick': 150, 'thorough': 5000}, backend='torch'),
-    Facet('torch/stabilizer_state', f_stab_filter, strategy=lambda t: st_stab('torch', 4, ['list']),
+    Facet('torch/stabilizer_state', f_stab_filter, strategy=lambda t: st_stab('torch', 4, ['list', 'strings']),
           examples={'quick': 200, 'thorough': 8000}, backend='torch'),
 ]
